@@ -4,4 +4,4 @@ From XotV Require Import Model.Base Model.Interning Model.InternOps Model.Fullna
 Extraction Language OCaml.
 Separate Extraction InternOps.x_new InternOps.x_add_namespace InternOps.x_add_prefix InternOps.x_add_name_ns
   Interning.name_ns_str Interning.prefix_str Interning.namespace_str
-  Builder.parse_document Builder.parse_fragment Builder.stream_shape Builder.span_get Builder.xml_id_lookup Builder.perror_span.
+  Builder.parse_document_at Builder.parse_document Builder.parse_fragment Builder.stream_shape Builder.span_get Builder.xml_id_lookup Builder.perror_span.
